@@ -567,6 +567,92 @@ def stale_end_rule(rep, fn):
     return n
 
 
+FINDERS = ("mem_find", "mem_chr", "mem_rchr", "memmem", "memchr", "memrchr", "mem_find_ptr", "mem_chr_ptr")
+
+
+def post_find_rule(rep, fn):
+    """R-POSTFIND: a finder returns a pointer p to a match that lies inside [buf, buf + size) - the match may *end* exactly at
+    buf + size.  Code that steps over the match (p += k) and then looks at what follows (*p, p[1], *(p + 1)) needs a
+    comparison of p with the end in between; with none, a delimiter that closes the buffer makes it read behind it."""
+    n = 0
+    found = {}
+    for pos, root, x, ps in fn.nodes():
+        if x.get("k") == "bin" and x["op"] == "=":
+            y = core.strip_casts(x["y"])
+            l = core.strip_casts(x["x"])
+            if y is not None and y.get("k") == "call" and (y.get("fn") or "").startswith(FINDERS) and l.get("k") == "ref":
+                # room the caller left behind the searched extent: a size argument of the form  N - c
+                room = 0
+                for a in y.get("args", []):
+                    a0 = core.strip_casts(a)
+                    if a0 is not None and "t" in a0 and fn.unit.type(a0["t"])["k"] == "int":
+                        if a0.get("k") == "bin" and a0.get("op") == "-" and const_val(a0["y"]) is not None:
+                            room = const_val(a0["y"])
+                        break
+                found[l["id"]] = min(room, found.get(l["id"], room))
+    if not found:
+        return 0
+    for pos, root, x, ps in fn.nodes():
+        st_ = core.step_of(x)
+        if st_ is None or st_[1] is None or st_[1] <= 0:
+            continue
+        v = core.strip_casts(st_[0])
+        if v.get("k") != "ref" or v.get("id") not in found:
+            continue
+        # forward from the advance: first dereference of v on each path, stopping at a relational test of v or a re-assignment
+        seen = set()
+        work = [(pos[0], pos[1] + 1)]
+        bad = None
+        while work and bad is None:
+            b, i0 = work.pop()
+            if (b, i0) in seen:
+                continue
+            seen.add((b, i0))
+            stop = False
+            elems = fn.blocks[b].elems
+            for i in range(i0, len(elems)):
+                e = elems[i]
+                for y, ps2 in walk(e):
+                    if y.get("k") == "bin" and y["op"] in ("<", ">", "<=", ">=") and v["id"] in core.ref_ids(y):
+                        stop = True
+                    if y.get("k") == "bin" and y["op"] == "=" and core.is_ref(core.strip_casts(y["x"]), id=v["id"]):
+                        stop = True
+                if stop:
+                    break
+                for y, ps2 in walk(e):
+                    d = None
+                    if y.get("k") == "un" and y.get("op") == "*":
+                        d = y["e"]
+                    elif y.get("k") == "sub":
+                        d = y["b"]
+                    if d is not None and v["id"] in core.ref_ids(d) and not any(core.step_of(q) is not None for q in ps2):
+                        off_ = 0
+                        d0 = core.strip_casts(d)
+                        if y.get("k") == "sub" and const_val(y["i"]) is not None:
+                            off_ = const_val(y["i"])
+                        elif d0.get("k") == "bin" and d0.get("op") == "+":
+                            off_ = next((const_val(q) for q in (d0["x"], d0["y"]) if const_val(q) is not None), 0)
+                        if off_ >= found[v["id"]]:
+                            bad = y
+                            break
+                if bad is not None:
+                    break
+            if stop or bad is not None:
+                continue
+            for s_ in fn.blocks[b].rsucc():
+                work.append((s_, 0))
+        n += 1
+        inst = "post-find:%s#%d" % (v.get("n"), n)
+        desc = "%s: after stepping over the match (%s advanced by %d at line %s) the pointer is compared with the end before it is dereferenced" % (
+            fn.name, v["n"], st_[1], x.get("ln"))
+        if bad is not None:
+            rep.violated("R-POSTFIND", fn, inst, desc, "'%s' is dereferenced at line %s with no comparison in between: when the match ends the buffer this "
+                         "reads behind it" % (v["n"], bad.get("ln")), x.get("ln"))
+        else:
+            rep.proved("R-POSTFIND", fn, inst, desc, "", x.get("ln"))
+    return n
+
+
 def stale_remaining_rule(rep, fn):
     """`left = end - cur` ties a remaining-size variable to a cursor.  Wherever the cursor is given a new value afterwards
     (assignment, or its address handed to a callee), the same block also updates `left` - otherwise the loop that follows
@@ -681,6 +767,7 @@ def run_scope(rep, tier, us, exclude=(), only=None, budget_quick=45, extra_rules
             stale_remaining_rule(rep, fn)
             stale_end_rule(rep, fn)
             r_outdef.check(rep, fn)
+            post_find_rule(rep, fn)
             for r in extra_rules:
                 r(rep, fn)
     return nfn, total
